@@ -176,13 +176,14 @@ def check_map(ctx, traces, area, kind, ar, t, w_frac, res, stream, backends):
 
 def s18_grid(ctx):
     import_fractopo()
-    res = StreamResult("S18-grid", rule="valid maps x cell widths extent/3 .. extent/13 (dividing and not) x joblib backends loky / threading (x worker limits in "
+    res = StreamResult("S18-grid", rule="valid maps x cell widths extent/3 .. extent/13 (dividing, not dividing, and just short of dividing: quotient 4.00003) x joblib backends loky / threading (x worker limits in "
                        "thorough): cells vs the exact Grid model (count, order, size, position, cover), sampled cells' P21 and connection frequency vs exact "
                        "recomputation from traces / nodes clipped to the circle of radius 1.5 w, tables identical across backends; non-trivial = grid with > 1 cell")
     rng = rng_for(ctx.seed, "S18")
     t = 0.01
     maps, _ = valid_maps(ctx, rng, budget(ctx.tier, 3, 24), F(t), area_kinds=("box",), nmax=7)
-    fracs = [3, 7.3] if ctx.tier == "quick" else [3, 4, 7.3, 13, 25.5]
+    # 4.00003: a width that falls just short of dividing the extent (quotient a few 1e-5 above an integer): one more row / column is needed to cover the far edge
+    fracs = [3, 7.3, 4.00003] if ctx.tier == "quick" else [3, 4, 7.3, 13, 25.5, 4.00003, 11.0001]
     for (traces, area, kind, ar) in maps:
         for wf in fracs:
             check_map(ctx, traces, area, kind, ar, t, wf, res, "S18-grid", ("loky", "threading"))
